@@ -39,23 +39,17 @@ def d1(ctx):
         if n.kind == "stmt" and isinstance(n.ast, ast.Assign) and isinstance(n.ast.targets[0], ast.Tuple) and len(n.ast.targets[0].elts) == 3 \
                 and isinstance(n.ast.value, ast.Call) and (dotted(n.ast.value.func) or "").endswith(("popleft", "pop")):
             dvar = n.ast.targets[0].elts[2].id
+            pop_node = n
     if dvar is None:
         raise AnalysisError("traverse_resource: (href, resource, depth) = todo.popleft() not found")
+    from .common import const_walk
+    fold = lambda e_: ctx.P.try_fold(fi.module, e_)
+    after_pop = [m for m, l in pop_node.succ if l != "exc"]
     for d in ("0", "1", "infinity"):
-        def decide(t, d=d):
-            if isinstance(t, ast.Compare) and len(t.ops) == 1 and isinstance(t.ops[0], (ast.Eq, ast.NotEq)) and dotted(t.left) == dvar:
-                v = ctx.P.try_fold(fi.module, t.comparators[0])
-                if isinstance(v, str):
-                    return (v == d) if isinstance(t.ops[0], ast.Eq) else (v != d)
-            if isinstance(t, ast.Compare) and len(t.ops) == 1 and isinstance(t.ops[0], (ast.In, ast.NotIn)) and dotted(t.left) == dvar:
-                v = ctx.P.try_fold(fi.module, t.comparators[0])
-                if isinstance(v, tuple):
-                    return (d in v) if isinstance(t.ops[0], ast.In) else (d not in v)
-            return None
-
-        reach = prune_walk(cfg, starts, decide, stop_nodes=[head])
+        # constant propagation from the pop with depth = d (assignments, helper returns and tests on it are followed)
+        reached = const_walk(cfg, after_pop, {dvar: d}, stop_nodes=[head], fold=fold)
+        reach = set(reached)
         y_ok = all(y.id in reach for y in ys)
-        # the yield must not depend on the depth tests: it precedes them
         obs.append(ctx.ob(y_ok, fi.qualname, where(fi, ys[0]), "Depth %s: the addressed resource is reported" % d, "yield reached",
                           "with Depth: %s the resource popped from the work list is not yielded" % d))
         queued = [q for q in queue_nodes if q.id in reach]
@@ -65,21 +59,21 @@ def d1(ctx):
                               "with Depth: 0 members are still queued (`%s`): the listing contains more than the addressed resource"
                               % (queued[0].text()[:50] if queued else raises[0].text()[:50] if raises else "")))
         else:
-            # value of nextdepth on this path
-            nd = None
-            for n in cfg.nodes:
-                if n.id in reach and n.kind == "stmt" and isinstance(n.ast, ast.Assign) and isinstance(n.ast.targets[0], ast.Name) and n.ast.targets[0].id.startswith("next"):
-                    nd = ctx.P.try_fold(fi.module, n.ast.value)
-                    ndvar = n.ast.targets[0].id
             want = "0" if d == "1" else "infinity"
-            passes = False
+            got = set()
             for q in queued:
                 c = [c for c in q.calls() if isinstance(c.func, ast.Attribute) and c.func.attr in ("append", "extend", "appendleft")][0]
-                if c.args and isinstance(c.args[0], ast.Tuple) and len(c.args[0].elts) == 3 and isinstance(c.args[0].elts[2], ast.Name) and c.args[0].elts[2].id.startswith("next"):
-                    passes = True
-            obs.append(ctx.ob(bool(queued) and nd == want and passes and not raises, fi.qualname, where(fi, head),
-                              "Depth %s: members queued with depth %s" % (d, want), "nextdepth = %r" % nd,
-                              "with Depth: %s the members are %s" % (d, "not queued at all" if not queued else "queued with depth %r instead of %r" % (nd, want))))
+                tup = [x for a_ in c.args for x in ast.walk(a_) if isinstance(x, ast.Tuple) and len(x.elts) == 3]
+                for env in reached[q.id]:
+                    if not tup:
+                        got.add("?")
+                    for x in tup:
+                        e3 = x.elts[2]
+                        v = e3.value if isinstance(e3, ast.Constant) else env.get(e3.id, "?") if isinstance(e3, ast.Name) else "?"
+                        got.add(v)
+            obs.append(ctx.ob(bool(queued) and got == {want} and not raises, fi.qualname, where(fi, head),
+                              "Depth %s: members queued with depth %s" % (d, want), "members are queued with depth %s" % sorted(map(repr, got)),
+                              "with Depth: %s the members are %s" % (d, "not queued at all" if not queued else "queued with depth %s instead of %r" % (sorted(map(repr, got)), want))))
     return obs
 
 
